@@ -70,6 +70,7 @@ ObsReal(rec, k) ==
       ackSeq |-> IF rep.k = "ctrl" /\ "seq" \in DOMAIN rep.params THEN rep.params.seq ELSE 0,
       afterCrash |-> rec.afterCrash,
       nested |-> rec.nested,
+      suspended |-> IF rec.i > 0 /\ "susp" \in DOMAIN Trace[k - 1] THEN ToSet(Trace[k - 1].susp.users) ELSE {},
       sysPre |-> IF rec.i > 0 /\ "sys" \in DOMAIN rec.st.topics THEN Trace[k - 1].st.topics["sys"].seq ELSE 0,
       sysPost |-> IF "sys" \in DOMAIN rec.st.topics THEN rec.st.topics["sys"].seq ELSE 0,
       \* permission-change notices received inside a group topic: [s, t, src (user named, "" = the recipient), want, given (texts)]
